@@ -5,3 +5,4 @@ package udp
 // -race implies -d=checkptr: unsafe pointer conversions are checked for alignment and for staying inside one heap object.
 const c27Variant = "-race"
 const c27StrictAlign = true
+const c27ListenDiv = 2
